@@ -140,6 +140,9 @@ func runJob(p part, job Job, perRunTimeout time.Duration) ([]Result, error) {
 			return all, fmt.Errorf("executor %s/%s died before its first run: %v\n%s", job.Prop, job.Part, werr, tail(out.String(), 4000))
 		}
 		// crash / hang during run inflight.Index
+		if f := os.Getenv("VERIF_DEBUG_CRASH"); f != "" {
+			os.WriteFile(f, out.Bytes(), 0o644)
+		}
 		kind := "crash"
 		if timedOut {
 			kind = "hang"
